@@ -49,6 +49,13 @@ pub fn raw_parts<'a>(s: &'a [u8], off: usize, n: usize) -> (r: &'a [u8])
     ensures r@ == s@.subrange(off as int, off + n),
 { unsafe { core::slice::from_raw_parts(s.as_ptr().add(off), n) } }
 
+/// `core::slice::from_raw_parts(a.as_ptr(), n)` on an array field: the first n bytes (safety contract: n <= N)
+#[verifier::external_body]
+pub fn arr_prefix<'a, const N: usize>(a: &'a [u8; N], n: usize) -> (r: &'a [u8])
+    requires n <= N,
+    ensures r@ == a@.subrange(0, n as int),
+{ unsafe { core::slice::from_raw_parts(a.as_ptr(), n) } }
+
 #[verifier::external_body]
 pub fn arr4_at(s: &[u8], off: usize) -> (r: [u8; 4])
     requires off + 4 <= s@.len(),
